@@ -3,15 +3,15 @@
 ID="$1"; X="$2"; WT=${WTROOT:-/tmp/wt}/$ID; S=$WT/_seed/$X
 [ -f "$S/patch.diff" ] || { echo "no seed $S"; exit 3; }
 cd "$WT" && git checkout -q -- . && git status --short | grep -v '^??' && { echo dirty; exit 3; }
-/venv/bin/python "$S/demo.py" >/tmp/cs.$$.clean 2>&1; RC_CLEAN=$?
+/venv/bin/python "$S/demo.py" >/tmp/cs.$$.$ID.$X.clean 2>&1; RC_CLEAN=$?
 git apply "$S/patch.diff" || { echo "patch does not apply"; exit 3; }
-/verif/tools/suite.py "$WT" >/tmp/cs.$$.suite 2>&1; RC_SUITE=$?
-/venv/bin/python "$S/demo.py" >/tmp/cs.$$.mut 2>&1; RC_MUT=$?
+/verif/tools/suite.py "$WT" >/tmp/cs.$$.$ID.$X.suite 2>&1; RC_SUITE=$?
+/venv/bin/python "$S/demo.py" >/tmp/cs.$$.$ID.$X.mut 2>&1; RC_MUT=$?
 git checkout -q -- . ; find "$WT" -name __pycache__ -type d -prune -exec rm -rf {} + 2>/dev/null
-echo "$ID/$X demo_clean_rc=$RC_CLEAN suite_rc=$RC_SUITE ($(tail -1 /tmp/cs.$$.suite)) demo_mutant_rc=$RC_MUT"
+echo "$ID/$X demo_clean_rc=$RC_CLEAN suite_rc=$RC_SUITE ($(tail -1 /tmp/cs.$$.$ID.$X.suite)) demo_mutant_rc=$RC_MUT"
 if [ $RC_CLEAN -eq 0 ] && [ $RC_SUITE -eq 0 ] && [ $RC_MUT -ne 0 ]; then
   D=/verif/seeded/$ID-$X; mkdir -p "$D"; cp "$S/patch.diff" "$S/demo.py" "$D/";
-  /venv/bin/python - "$S/meta.json" "$D/meta.json" "$(tail -3 /tmp/cs.$$.mut | tr '\n' ' ' | cut -c1-400)" <<'PY'
+  /venv/bin/python - "$S/meta.json" "$D/meta.json" "$(tail -3 /tmp/cs.$$.$ID.$X.mut | tr '\n' ' ' | cut -c1-400)" <<'PY'
 import json,sys
 try: m=json.load(open(sys.argv[1]))
 except Exception as e: m={"property":"?","summary":"(meta unreadable)"}
@@ -19,5 +19,5 @@ m["confirmed"]={"demo_on_clean_tree":"exit 0","pinned_suite_with_change":"403/40
 json.dump(m,open(sys.argv[2],"w"),indent=1)
 PY
   echo "kept -> $D"
-else echo "NOT kept"; tail -5 /tmp/cs.$$.clean /tmp/cs.$$.mut; fi
-rm -f /tmp/cs.$$.*
+else echo "NOT kept"; tail -5 /tmp/cs.$$.$ID.$X.clean /tmp/cs.$$.$ID.$X.mut; fi
+rm -f /tmp/cs.$$.$ID.$X.*
